@@ -370,61 +370,51 @@ pub fn explore_ctx(spec: &Spec, dump: &Dump, si: usize, ctx_idx: usize, ctx: &cr
 /// Explore every rule set and every right context of a definition.
 pub fn explore_spec(spec: &Spec, dump: &Dump, stats: &mut Stats, cap: u64) -> Vec<Viol> {
     let mut viols = vec![];
-    // right contexts are numbered in declaration order across the whole definition
-    let mut ctx_idx = 0;
-    let mut ctx_of: Vec<(usize, usize, crate::re::Re)> = vec![];
-    for si in spec.order() {
-        for r in &spec.sets[si].rules {
-            if let Some(c) = &r.ctx {
-                ctx_of.push((si, ctx_idx, c.clone()));
-                ctx_idx += 1;
-            }
-        }
-    }
-    if dump.ctxs.len() != ctx_idx {
-        viols.push(Viol { kind: ViolKind::Ctx, set: 0, path: vec![], detail: format!("{} right-context automata for {} contexts", dump.ctxs.len(), ctx_idx) });
-    }
     for si in 0..spec.sets.len() {
         viols.extend(explore_set(spec, dump, si, stats, cap));
     }
-    // accept lists carry context *indices*; check they point at the right rule's context
-    for (si, idx, c) in &ctx_of {
-        viols.extend(explore_ctx(spec, dump, *si, *idx, c, stats, cap));
-    }
-    viols.extend(check_ctx_indices(spec, dump));
-    viols
-}
-
-/// Every accept entry of rule `r` must carry the context index assigned to `r` (declaration order).
-fn check_ctx_indices(spec: &Spec, dump: &Dump) -> Vec<Viol> {
-    let mut expect: Vec<Option<usize>> = vec![None; spec.n_rules()];
+    // Which automaton guards which rule is the implementation's business (it may share automata
+    // between identical contexts): take the index the rule's accept entries carry, require it to be
+    // the same everywhere, and check *that* automaton against the rule's own context regex,
+    // resolved in the rule's own rule set.
     let ids = spec.rule_ids();
-    let mut k = 0;
-    for si in spec.order() {
+    let mut used: Vec<Option<Option<usize>>> = vec![None; spec.n_rules()];
+    let mut inconsistent = false;
+    {
+        let mut see = |l: &[(usize, Option<usize>)]| {
+            for &(a, c) in l {
+                if a < used.len() {
+                    match used[a] {
+                        None => used[a] = Some(c),
+                        Some(prev) if prev != c => inconsistent = true,
+                        _ => {}
+                    }
+                }
+            }
+        };
+        for st in &dump.states {
+            see(&st.accepting);
+            for t in st.chars.iter().map(|(_, t)| t).chain(st.ranges.iter().map(|(_, _, t)| t)).chain(st.any.iter()).chain(st.eoi.iter()) {
+                if let Target::Accept(l) = t {
+                    see(l);
+                }
+            }
+        }
+    }
+    if inconsistent {
+        viols.push(Viol { kind: ViolKind::Ctx, set: 0, path: vec![], detail: "a rule is guarded by different right-context automata in different accept entries".into() });
+    }
+    for si in 0..spec.sets.len() {
         for (ri, r) in spec.sets[si].rules.iter().enumerate() {
-            if r.ctx.is_some() {
-                expect[ids[si][ri]] = Some(k);
-                k += 1;
+            let id = ids[si][ri];
+            match (&r.ctx, used[id]) {
+                (Some(c), Some(Some(idx))) => viols.extend(explore_ctx(spec, dump, si, idx, c, stats, cap)),
+                (Some(_), Some(None)) => viols.push(Viol { kind: ViolKind::Ctx, set: si, path: vec![], detail: format!("rule {id} has a right context but its accept entries carry none") }),
+                (None, Some(Some(idx))) => viols.push(Viol { kind: ViolKind::Ctx, set: si, path: vec![], detail: format!("rule {id} has no right context but its accept entries carry context {idx}") }),
+                _ => {} // the rule never accepts anywhere reachable: nothing to check
             }
         }
     }
-    let mut viols = vec![];
-    let mut check = |l: &[(usize, Option<usize>)], viols: &mut Vec<Viol>| {
-        for &(a, c) in l {
-            if a < expect.len() && expect[a] != c {
-                viols.push(Viol { kind: ViolKind::Ctx, set: 0, path: vec![], detail: format!("rule {a} carries context {c:?}, expected {:?}", expect[a]) });
-            }
-        }
-    };
-    for st in &dump.states {
-        check(&st.accepting, &mut viols);
-        for t in st.chars.iter().map(|(_, t)| t).chain(st.ranges.iter().map(|(_, _, t)| t)).chain(st.any.iter()).chain(st.eoi.iter()) {
-            if let Target::Accept(l) = t {
-                check(l, &mut viols);
-            }
-        }
-    }
-    viols.truncate(5);
     viols
 }
 
